@@ -1,7 +1,7 @@
 (** C09 — cached maps always return the latest write (read-your-writes).
     This file only pins statements and reports their assumptions. *)
 From QV Require Import Common.Prelude Cache.Wide Cache.WideProof Cache.SetLog Cache.SetCache
-  Cache.SetProof Cache.FillRace.
+  Cache.SetProof Cache.SetCacheProof Cache.FillRace.
 Open Scope N_scope.
 
 (** Single-value and multi-type map.  [run init ops = Some _]: every operation of the
@@ -37,7 +37,21 @@ Proof. exact set_ryw_refuted_overlay. Qed.
 Theorem C09_set_ryw_refuted_overlay_no_background : exists thr ops, refutes thr true false ops.
 Proof. exact set_ryw_refuted_overlay_no_background. Qed.
 
+(** Key→set map with both repairs (patches/fix_c09_spilled_iter.diff: the spilled iterator
+    keeps draining; patches/fix_c09_overlay_lww.diff: per element the operation issued last
+    decides), ANY spill threshold [thr]: for every enabled operation sequence (background
+    commits, per-key notifications, evictions of the value cache at any time and of a
+    staging log when it is not dirty, placed arbitrarily) whose writes to one key are issued
+    in the epoch order of their batches, every [SGet] yields, as a set, exactly the members
+    after all inserts and removes issued before it.  The model keeps the staging log in
+    binary-heap array order with the all-or-nothing [FlushUpTo] of a max-heap. *)
+Theorem C09_set_ryw : forall thr ops s outs,
+  srun thr true true sinit ops = Some (s, outs) -> sordered [] ops = true ->
+  same_sets outs (sspec [] ops) = true.
+Proof. exact set_ryw. Qed.
+
 Check sample_history_ok.   (* the hypotheses of C09_wide_ryw are satisfiable: Cache/WideProof.v *)
+Check set_sample_ok.       (* ... and those of C09_set_ryw, with a spilling set: Cache/SetCacheProof.v *)
 
 Print Assumptions C09_wide_ryw.
 Print Assumptions C09_wide_unordered_refuted.
@@ -45,3 +59,4 @@ Print Assumptions C09_wide_concurrent_fill_refuted.
 Print Assumptions C09_set_ryw_refuted_spill.
 Print Assumptions C09_set_ryw_refuted_overlay.
 Print Assumptions C09_set_ryw_refuted_overlay_no_background.
+Print Assumptions C09_set_ryw.
